@@ -613,7 +613,8 @@ IdleStep(m0, e) ==
   LET m == [Cnt(m0, "idle") EXCEPT !.wactive = FALSE]
       o == e.obs
       mine == {k \in 1..Len(m.fl) : m.fl[k].inst = m.inst}
-      waiting == {k \in mine : m.fl[k].cb /\ m.fl[k].st = "wait"}
+      \* never invoked: still pending at an idle point, or dropped without having been invoked
+      waiting == {k \in mine : m.fl[k].cb /\ m.fl[k].st \in {"wait", "dropped"}}
       flushedN == IF {k \in mine : m.fl[k].st = "ok"} = {} THEN -1
                   ELSE SetMax({m.fl[k].n : k \in {x \in mine : m.fl[x].st = "ok"}})
       mustGo == {m.oblig[k].ck : k \in {x \in 1..Len(m.oblig) : m.oblig[x].n <= flushedN}}
